@@ -56,8 +56,8 @@ pub fn property() -> Property {
     scenarios: &[Scenario {
       id: 0,
       name: "discovery events vs model of announced endpoints",
-      quick: 1_500,
-      thorough: 200_000,
+      quick: 8_000,
+      thorough: 600_000,
       max_len: 300,
       max_threads: 0,
     }],
